@@ -4,18 +4,22 @@ From EV Require Import Res Arr ToCsv ToCsvSpec ToCsvTop ToCsvHist ToCsvHistSpec.
 Import ListNotations.
 Open Scope Z_scope.
 
-Lemma call_correct st c :
-  to_csv (to_csv_fuel (c_fr c) (c_chunk c)) V_fix (c_fr c) (c_rf c) (resolve st (c_cf c)) (c_chunk c)
-  = call_spec st c.
+Lemma closed_form fr rf cf chunk :
+  to_csv (to_csv_fuel fr chunk) V_fix fr rf cf chunk = to_csv_closed fr rf cf chunk.
 Proof.
-  unfold call_spec.
-  destruct (0 <? c_chunk c) eqn:Hc; cbn [andb].
+  unfold to_csv_closed.
+  destruct (0 <? chunk) eqn:Hc; cbn [andb].
   - apply Z.ltb_lt in Hc.
-    destruct (cf_valid (c_fr c) (resolve st (c_cf c))) eqn:Hv.
+    destruct (cf_valid fr cf) eqn:Hv.
     + apply to_csv_rows_correct; auto.
     + apply to_csv_rejects. right. exact Hv.
   - apply Z.ltb_ge in Hc. apply to_csv_rejects. left. exact Hc.
 Qed.
+
+Lemma call_correct st c :
+  to_csv (to_csv_fuel (c_fr c) (c_chunk c)) V_fix (c_fr c) (c_rf c) (resolve st (c_cf c)) (c_chunk c)
+  = call_spec st c.
+Proof. apply closed_form. Qed.
 
 (* the repaired code: a history is a sequence of independent calls *)
 Theorem history_correct st : forall calls file,
@@ -36,7 +40,7 @@ Proof.
   rewrite history_correct. revert file k.
   induction calls as [|c0 t IH]; intros file k Hn Hc Hv; [destruct k; discriminate|].
   destruct k as [|k]; cbn [nth_error spec_hist] in *.
-  - injection Hn as ->. unfold call_spec. apply Z.ltb_lt in Hc. rewrite Hc, Hv. cbn [andb]. reflexivity.
+  - injection Hn as ->. unfold call_spec, to_csv_closed. apply Z.ltb_lt in Hc. rewrite Hc, Hv. cbn [andb]. reflexivity.
   - apply IH; assumption.
 Qed.
 
